@@ -26,7 +26,7 @@ META = dict(
         '(no control-eligible, no treatment-eligible, all fixed, ...); iroas '
         'in {2.0, 0.0} (with and without a budget range); n_pretest_max and '
         'n_designs symbolic; shared / reused data-object histories',
-        thorough='adds all 7^3 x {gratio, tsize, share, budget} symbolic, '
+        thorough='adds all 7^3 x {tsize, share} symbolic, '
         'panels P3 P4 P8 P9 with seeded tables'),
     outside='panels concrete (listed family, each meeting the precondition: '
     '>= n_test+3 points in the window, non-constant series); per-call '
@@ -92,7 +92,7 @@ def jobs(tier, seed):
   if tier == 'thorough':
     rnd = random.Random(seed)
     for m in methods:
-      for s in (['tsize'], ['share'], ['budget'], ['csize', 'gratio']):
+      for s in (['tsize'], ['share']):
         for r0 in RT:
           out.append(_mk('P1', m, s, 'sym', 'all343-' + r0,
                          elig_fix={'0': r0}, max_s=2500))
